@@ -21,6 +21,8 @@ Obligations and status
                                    oneof_byKey_first_partial proved  (holds when the keys are distinct)
   ranges_has_iff (field, enum)   proved under NonOverlapping (= what CheckValid accepts, checkValid_iff)
   ranges_has_sound               proved for ARBITRARY lists; completeness refuted for overlapping lists
+  fieldCheckValid_has            proved under -2^31 < stop; REFUTED without it (witness, sig fieldranges-end-minint32-wraps):
+                                   fieldCheckValid_has_refuted
   requiredNumbers_exact          proved
   fullName_join                  proved  (enum values are named in the enum's parent scope, as documented)
   parent_chain_terminates        proved
@@ -174,6 +176,25 @@ theorem fieldCheckValid_has (isMessageSet : Bool) (rs : List Rng) (n : Int)
     intro a b ha hb hab
     rw [fieldEnd_eq a (h32 a ha).2 (hstop a ha), fieldEnd_eq b (h32 b hb).2 (hstop b hb)] at hab
     omega
+
+/-- REFUTED without the guard `-2^31 < stop` (sig `fieldranges-end-minint32-wraps`): a stored exclusive end
+of MinInt32 makes `End() = r[1]-1` wrap to MaxInt32; `CheckValid(isMessageSet = true)` accepts the list
+`[(4, -2147483648)]` and `Has(100)` is true although the listed range `[4, -2^31)` is empty. (Reachable
+through protodesc.NewFile for a MessageSet message; `fieldCheckValid_has` above is the partial theorem,
+its hypothesis `hstop` excludes exactly this.) -/
+theorem fieldCheckValid_has_refuted :
+    ¬ (∀ (isMessageSet : Bool) (rs : List Rng) (n : Int),
+        (∀ r ∈ rs, Int32 r.start ∧ Int32 r.stop) → fieldCheckValid isMessageSet rs = true →
+        (fieldHas rs n = true ↔ ∃ r ∈ rs, InFieldRange r n)) := by
+  intro h
+  have hs : sortByStart [⟨4, -2147483648⟩] = [⟨4, -2147483648⟩] := by
+    simp [sortByStart]
+  have hc : fieldCheckValid true [⟨4, -2147483648⟩] = true := by
+    rw [fieldCheckValid, hs]; decide
+  have hh : fieldHas [⟨4, -2147483648⟩] 100 = true := by
+    rw [fieldHas, hs]; simp [bsearch, fieldEnd, wrap32]
+  have := (h true [⟨4, -2147483648⟩] 100 (by simp [Int32]) hc).1 hh
+  simp [InFieldRange] at this
 
 /-! ## Keyed lookups -/
 
